@@ -35,13 +35,24 @@ class PrologueEpilogueInsertion(ModulePass):
     def _process_function(self, func: riscv_func.FuncOp) -> None:
         # Find all callee-preserved registers that are clobbered. We define clobbered
         # as it being the result of some operation and therefore written to.
+        # The block arguments of nested regions (e.g. the induction variable of a loop that
+        # is not lowered yet) are written by the code the enclosing operation lowers to.
         used_callee_preserved_registers = OrderedSet(
-            res.type
+            written_type
             for op in func.walk()
             if not isinstance(op, rv32.GetRegisterOp | riscv.GetFloatRegisterOp)
-            for res in op.results
-            if isinstance(res.type, IntRegisterType | FloatRegisterType)
-            if res.type in Registers.S or res.type in Registers.FS
+            for written_type in (
+                *op.result_types,
+                *(
+                    arg.type
+                    for region in op.regions
+                    if op is not func
+                    for block in region.blocks
+                    for arg in block.args
+                ),
+            )
+            if isinstance(written_type, IntRegisterType | FloatRegisterType)
+            if written_type in Registers.S or written_type in Registers.FS
         )
 
         if not used_callee_preserved_registers:
